@@ -70,7 +70,8 @@ class W:
         self.pending_truncate = False  # path writers: the next write reopens with "wb+"
         self.connected = False         # written through the builder since its last disconnect
         if kind == "path":
-            self.path = os.path.join(tmp, f"sub{idx}", f"out{idx}.gcode")
+            # the directories (two missing levels) are created by the writer when it connects
+            self.path = os.path.join(tmp, f"sub{idx}", "nested", f"out{idx}.gcode")
             self.writer = FileWriter(self.path)
         elif kind == "bytesio":
             self.stream = io.BytesIO()
